@@ -888,6 +888,44 @@ func w1C18(h *w1Hist, body *w1Body, v *w1Viol) {
 			}
 		}
 	}
+	w1C18Destroy(h, v)
+}
+
+// w1C18Destroy: teardown by destruction of the path (reload that re-creates it, removal of its
+// entry, shutdown), publisher or not: a reader that was attached when the path announced its
+// destruction and had not asked to leave must have been closed before that announcement.
+// The clause only looks at what precedes each announcement, so it is also evaluated on runs
+// that ended at the step cap (a path that leaves its readers attached to a stream nobody
+// closes keeps the offline filler of an always-available stream running for ever).
+func w1C18Destroy(h *w1Hist, v *w1Viol) {
+	for _, e := range h.logs {
+		pn, msg, ok := w1PathOfLog(e.A)
+		if !ok || !strings.HasPrefix(msg, "destroyed") {
+			continue
+		}
+		for _, r := range h.rds {
+			if !r.ok || r.path != pn || r.addRet == 0 || r.addRet > e.Seq {
+				continue
+			}
+			if r.premoveCall > 0 && r.premoveCall < e.Seq {
+				continue
+			}
+			// (the path may close a reader it has just attached before the reader's own
+			// goroutine has seen the answer to its request: count from the request on)
+			closed := false
+			for _, cs := range r.closeSeqs {
+				if cs > r.addCall && cs < e.Seq {
+					closed = true
+				}
+			}
+			if r.closeSeq > r.addCall && r.closeSeq < e.Seq {
+				closed = true
+			}
+			if !closed {
+				v.add("C18", "reader-not-closed-on-destroy", "reader %s was attached to path %q (since seq %d) when the path was destroyed (seq %d) and was never closed by it", r.name, pn, r.addRet, e.Seq)
+			}
+		}
+	}
 }
 
 // ---- C19
